@@ -74,8 +74,12 @@ def engineOp (st : DriverState) (args : List String) : String :=
           if it.startsWith "reset:" then
             let txt := parseRunes (it.drop 6).toString
             let (m', ok) := r.m.reset z txt
-            -- reference: a standard FEN is accepted and becomes the game; otherwise whatever the model says stands
-            match Spec.parseFen (String.ofList txt) with
+            -- reference: the accepted text, normalised to the standard FEN it re-encodes to (C19.accepted_normalised),
+            -- becomes the game; rejected text leaves the game as it was
+            let canon := match Fen.decode txt with
+              | some d => Spec.parseFen (Fen.encode d.pos d.turn d.noprogress d.fullmoves)
+              | none => none
+            match canon with
             | some sg => ({ m := m', sb := if ok then ⟨{ start := sg }, ["-"]⟩ else r.sb }, ok, ok)
             | none => ({ m := m', sb := r.sb }, ok, ok)
           else if it.startsWith "mv:" then
